@@ -51,7 +51,8 @@ What is proved (all for **all** states satisfying the hypotheses):
   namespace) incl. the form-association condition; `C02_spec_insert_foreign_element` for the
   *onlyAddToElementStack* form (element types that are not form-associated).
 * (k) `C02_spec_insert_character`, `C02_spec_insert_comment`, `C02_spec_insert_comment_in`.
-* (l) `C02_spec_reconstruct` — reconstruct the active formatting elements.
+* (l) `C02_spec_reconstruct` — reconstruct the active formatting elements; `C02_spec_reconstruct_suffix`: the
+  re-created entries are the longest suffix without markers and open elements.
 * (g) `C02_spec_noah_push` — `create_formatting_element_for` = Noah's Ark clause (`Spec.TreeAlgo.noahPush`)
   + insert an HTML element + push; (m) `C02_spec_clear_to_last_marker`.
 * (o) `C02_spec_adoption_inner_loop` (steps 13.1–13.9), `C02_spec_adoption_round` (steps 4.3–4.19, one
@@ -66,8 +67,7 @@ element itself (`skip(fmt_elem_stack_index)`), not below it — equal because fo
 never special (`AFOk`); `pop_until` on a stack without the wanted element empties the stack and returns
 `len + 1`; `check_body_end` lacks `rb`, `rtc` (parse error only, see `C02_table_body_end_ok_partial`).
 
-Not proved here: the reading aid `reconstructSuffixLength` (= length of the re-created suffix); parse
-errors are not compared (C02 does not observe them); the per-insertion-mode rule arms (`rules.rs`).
+Not proved here: parse errors are not compared (C02 does not observe them); the per-insertion-mode rule arms (`rules.rs`).
 -/
 namespace H5V.Props.C02
 open H5V
@@ -224,6 +224,13 @@ theorem C02_spec_reconstruct_rewind {N T : Type} [DecidableEq N] (stack : List (
     Spec.TreeAlgo2.reconstructRewind stack list i ≤ i ∧
     ∀ j, Spec.TreeAlgo2.reconstructRewind stack list i ≤ j → j < i → (list[j]?).any (markerOrOpen stack) = false :=
   rewind_spec stack list i
+
+/-- the entries re-created (positions `start … length - 1`, `start` = where the rewinding ends) are exactly
+the longest suffix of the list that contains neither a marker nor an open element -/
+theorem C02_spec_reconstruct_suffix {N T : Type} [DecidableEq N] (stack : List (Elem N)) (list : List (Entry N T))
+    (last : Entry N T) (hl : list.getLast? = some last) (hm : markerOrOpen stack last = false) :
+    list.length - Spec.TreeAlgo2.reconstructRewind stack list (list.length - 1) = reconstructSuffixLength stack list :=
+  reconstruct_suffix stack list last hl hm
 
 /-! ## (g) push onto the list of active formatting elements, (m) clear up to the last marker -/
 
@@ -411,7 +418,15 @@ theorem exState_af : AFOk exState.dom exState.openElems exState.activeFormatting
 
 /-- the hypotheses of `C02_spec_adoption_agency` are satisfiable (the instance below is the theorem's
 conclusion for `exState`) … -/
-example := C02_spec_adoption_agency "b".toList exState exState_elems exState_head exState_af
+example : Tot (H5V.Model.HtmlTB.adoptionAgency "b".toList) exState (fun _ s' calls => ∃ ids L,
+      (∀ tc, TcOk s'.dom tc → edits calls = L.map (editCall tc)) ∧
+      (∀ rest log0, adoptionAgencyWithFallback tagCtx "b".toList (absState exState (ids ++ rest) log0)
+          = some (absState s' rest (log0 ++ L))) ∧
+      SameButStackList exState s' ∧ ElemsOk s'.dom s'.openElems ∧ (∀ x ∈ ids, exState.dom.size ≤ x)) :=
+  C02_spec_adoption_agency "b".toList exState exState_elems exState_head exState_af
+example := C02_spec_reconstruct exState2 (fun h hh => exState_elems h (by
+  have : h = 1 ∨ h = 2 := by simpa [exState2, exState] using hh
+  rcases this with rfl | rfl <;> simp [exState])) ⟨1, rfl, by decide +kernel, by decide +kernel⟩
 
 /-- … the run does not end in a sink panic (`<b><p></b>`: stack `html body p`, list empty, after two rounds
 of the outer loop) … -/
@@ -505,6 +520,7 @@ end Ex
 #print axioms C02_spec_insert_comment_in
 #print axioms C02_spec_reconstruct
 #print axioms C02_spec_reconstruct_rewind
+#print axioms C02_spec_reconstruct_suffix
 #print axioms C02_spec_noah_push
 #print axioms C02_spec_noah_list
 #print axioms C02_spec_clear_to_last_marker
